@@ -376,3 +376,61 @@ func shorten(s string) string {
 }
 
 func cs(s string) string { return hx.CoqString(shorten(s)) }
+
+// lastPrefix marks a member that must be printed AFTER the other members of its object (an attacker chooses the
+// member order of the bytes; encoding/json lets the later of two members that fold to the same struct field win).
+const lastPrefix = "~last~"
+
+// orderedJSON prints a tree with sorted member names, members marked with lastPrefix last (mark removed).
+func orderedJSON(v interface{}) []byte {
+	var b bytes.Buffer
+
+	writeOrdered(&b, v)
+
+	return b.Bytes()
+}
+
+func writeOrdered(b *bytes.Buffer, v interface{}) {
+	switch x := v.(type) {
+	case map[string]interface{}:
+		var ks, late []string
+
+		for k := range x {
+			if strings.HasPrefix(k, lastPrefix) {
+				late = append(late, k)
+			} else {
+				ks = append(ks, k)
+			}
+		}
+
+		sort.Strings(ks)
+		sort.Strings(late)
+		b.WriteByte('{')
+
+		for i, k := range append(ks, late...) {
+			if i > 0 {
+				b.WriteByte(',')
+			}
+
+			b.Write(toJSON(strings.TrimPrefix(k, lastPrefix)))
+			b.WriteByte(':')
+			writeOrdered(b, x[k])
+		}
+
+		b.WriteByte('}')
+	case []interface{}:
+		b.WriteByte('[')
+
+		for i, e := range x {
+			if i > 0 {
+				b.WriteByte(',')
+			}
+
+			writeOrdered(b, e)
+		}
+
+		b.WriteByte(']')
+	default:
+		b.Write(toJSON(v))
+	}
+}
